@@ -29,7 +29,38 @@ Definition plain_str (it : schema) : Prop :=
 Definition arr_leaf (p : schema) : Prop :=
   exists c it, p = Sch c [] None false (Some it) [] [] /\ c_types c = [SArray] /\ c_ref c = None /\ c_enum c = None /\ c_default c = None /\ plain_str it.
 
-Definition leaf (p : schema) : Prop := str_leaf p \/ int_leaf p \/ bool_leaf p \/ num_leaf p \/ arr_leaf p.
+(* string enums (C08): a typed string schema that lists its values *)
+Definition enum_leaf (p : schema) : Prop :=
+  exists c vs, p = Sch c [] None false None [] [] /\ c_types c = [SString] /\ c_ref c = None /\ c_enum c = Some (map JStr vs) /\ vs <> [] /\
+               c_default c = None /\ c_format c = None /\ c_min_len c = 0 /\ c_max_len c = 0 /\ c_pattern c = None.
+
+Definition leaf (p : schema) : Prop := str_leaf p \/ int_leaf p \/ bool_leaf p \/ num_leaf p \/ arr_leaf p \/ enum_leaf p.
+
+Lemma rmap_ev_strs (vs : list str) : rmap (fun v => match ev_of_json v with Some e => Done e | None => GUnmod end) (map JStr vs) = Done (map EVStr vs).
+Proof. induction vs as [|v r IH]; [reflexivity|]. cbn [map rmap ev_of_json rbind]. rewrite IH. reflexivity. Qed.
+
+Lemma gen_enum_leaf f self sc p ty bp : enum_leaf p -> gen (S f) MInline self false p sc = Done (ty, bp) ->
+  exists vs, c_enum (s_con p) = Some (map JStr vs) /\ ty = TEnum sc TString false (map EVStr vs) /\ bp = c_bounds (s_con p).
+Proof.
+  intros (c & vs & -> & Ht & Hr & He & Hne & _ & Hf & _) H. exists vs. cbn [s_con]. split; [exact He|].
+  cbn [Gen.gen s_con] in H. rewrite He in H.
+  destruct f as [|f]; [discriminate|]. cbn [Gen.gen s_con] in H. rewrite He in H.
+  destruct f as [|f]; [discriminate|]. cbn [Gen.gen s_con] in H. rewrite He, Ht in H.
+  destruct vs as [|v0 vr]; [contradiction Hne; reflexivity|]. cbn [map] in H.
+  unfold primitive in H. rewrite Hf in H. cbn [rbind wrap_ptr] in H.
+  change (JStr v0 :: map JStr vr) with (map JStr (v0 :: vr)) in H. rewrite rmap_ev_strs in H. cbn [sty_eqb] in H. inversion H. split; reflexivity.
+Qed.
+
+Lemma existsb_json_strs s vs : existsb (json_eqb (JStr s)) (map JStr vs) = existsb (enum_eq TString (GS s)) (map EVStr vs).
+Proof. induction vs as [|v r IH]; [reflexivity|]. cbn [map existsb]. rewrite IH. reflexivity. Qed.
+
+Lemma valid_enum_leaf fv p x vs : enum_leaf p -> c_enum (s_con p) = Some (map JStr vs) ->
+  valid (S fv) p x = match x with JStr s => existsb (json_eqb (JStr s)) (map JStr vs) | _ => false end.
+Proof.
+  intros (c & vs0 & -> & Ht & Hr & He0 & _ & _ & Hf & Hmn & Hmx & Hp) He. cbn [s_con] in He. cbn [Valid.valid s_con s_all_of s_any_of]. rewrite Hr, Ht, He. cbn [type_ok existsb forallb].
+  destruct x; cbn [type_matches orb andb]; try reflexivity.
+  rewrite Hmn, Hmx, Hp, Hf. rewrite ?andb_true_r, ?orb_false_r. cbn [andb len_ok Nat.eqb orb]. rewrite ?andb_true_r. reflexivity.
+Qed.
 
 (* the items of an array value in a document: none is null *)
 Definition arr_value (x : json) : Prop := forall l, x = JArr l -> forall y, In y l -> y <> JNull.
@@ -181,7 +212,7 @@ Definition ref_prop (p : schema) (x : str) : Prop :=
 (* fuel: three generator steps, three decoding steps and two validation steps per level (a reference costs one decoding and one validation
    step, an optional field one decoding step, array items one of each at the innermost level) *)
 Fixpoint fuelG (n a : nat) : nat := match n with O => S (S (S a)) | S m => S (S (S (fuelG m a))) end.
-Fixpoint fuelD (n b : nat) : nat := match n with O => S (S (S b)) | S m => S (S (S (fuelD m b))) end.
+Fixpoint fuelD (n b : nat) : nat := match n with O => S (S (S (S b))) | S m => S (S (S (fuelD m b))) end.
 Fixpoint fuelV (n c : nat) : nat := match n with O => S (S (S c)) | S m => S (S (fuelV m c)) end.
 
 (* a scalar object of nesting depth at most n: its properties are leaves, such objects of depth below n written inline, or references to
@@ -219,6 +250,8 @@ Lemma fuelV_Sc n c : S (fuelV n c) = fuelV n (S c).
 Proof. induction n as [|m IH]; cbn [fuelV]; [reflexivity|]. rewrite <- IH. reflexivity. Qed.
 Lemma fuelV_SS n c : exists x, fuelV n c = S (S x).
 Proof. destruct n; cbn [fuelV]; eexists; reflexivity. Qed.
+Lemma fuelD_pos n b : exists x, fuelD n b = S x.
+Proof. destruct n; cbn [fuelD]; eexists; reflexivity. Qed.
 Lemma fuelG_SSS n a : exists x, fuelG n a = S (S (S x)).
 Proof. destruct n; cbn [fuelG]; eexists; reflexivity. Qed.
 
@@ -256,14 +289,44 @@ Proof.
   unfold field_ok. cbn [fst snd f_json f_ty f_name field_validators]. rewrite Hl. reflexivity.
 Qed.
 
+Lemma dec_tenum fd sc es x : dec (S (S fd)) (TEnum sc TString false es) x =
+  obind (dec (S fd) TString x) (fun v => if existsb (enum_eq TString v) es then Ok v else Err).
+Proof. reflexivity. Qed.
+
+Lemma enum_field fd fv c self fname k p vs kv sc :
+  enum_leaf p -> c_enum (s_con p) = Some (map JStr vs) -> fname <> [] ->
+  match lookup k kv with
+  | Some x => x <> JNull ->
+      field_ok (dec (S (S (S fd)))) zero (default_val env dv_fuel) kv (pair_of (make_field defs c self fname k p (TEnum sc TString false (map EVStr vs)) (c_bounds (s_con p)))) = valid (S fv) p x
+  | None => mem k (c_required c) = false ->
+      field_ok (dec (S (S (S fd)))) zero (default_val env dv_fuel) kv (pair_of (make_field defs c self fname k p (TEnum sc TString false (map EVStr vs)) (c_bounds (s_con p)))) = true
+  end.
+Proof.
+  intros Hleaf He Hn. destruct (lookup k kv) as [x|] eqn:Hl.
+  - intros Hnull. rewrite (valid_enum_leaf fv p x vs Hleaf He). destruct Hleaf as (pc & vs0 & -> & Ht & Hr & He0 & _ & Hd & _). unfold make_field, pair_of. cbn [s_con]. rewrite Hd.
+    destruct (mem k (c_required c)).
+    + unfold field_ok. cbn [fst snd f_json f_ty f_name field_validators]. rewrite Hl, dec_tenum, dec_tstring.
+      destruct x; try contradiction; cbn [obind]; try reflexivity.
+      rewrite existsb_json_strs. destruct (existsb (enum_eq TString (GS s)) (map EVStr vs)); reflexivity.
+    + cbn [nillable_ty]. unfold field_ok. cbn [fst snd f_json f_ty f_name field_validators]. rewrite Hl.
+      assert (Hp : dec (S (S (S fd))) (TPtr (TEnum sc TString false (map EVStr vs))) x =
+                   match x with JNull => Ok GNil | _ => obind (dec (S (S fd)) (TEnum sc TString false (map EVStr vs)) x) (fun v => Ok (GP v)) end) by reflexivity.
+      rewrite Hp, dec_tenum, dec_tstring.
+      destruct x; try contradiction; cbn [obind]; try reflexivity.
+      rewrite existsb_json_strs. destruct (existsb (enum_eq TString (GS s)) (map EVStr vs)); reflexivity.
+  - intros Hm. destruct Hleaf as (pc & vs0 & -> & Ht & Hr & He0 & _ & Hd & _). unfold make_field, pair_of. cbn [s_con]. rewrite Hd, Hm. cbn [nillable_ty].
+    unfold field_ok. cbn [fst snd f_json f_ty f_name field_validators]. rewrite Hl. reflexivity.
+Qed.
+
 Lemma leaf_default_none p : leaf p -> c_default (s_con p) = None.
 Proof.
-  intros [Hl|[Hl|[Hl|[Hl|Hl]]]].
+  intros [Hl|[Hl|[Hl|[Hl|[Hl|Hl]]]]].
   - destruct Hl as (c & -> & _ & _ & _ & Hd & _); exact Hd.
   - destruct Hl as (c & m & -> & _ & _ & _ & Hd & _); exact Hd.
   - destruct Hl as (c & -> & _ & _ & _ & Hd); exact Hd.
   - destruct Hl as (c & -> & _ & _ & _ & Hd & _); exact Hd.
   - destruct Hl as (c & it & -> & _ & _ & _ & Hd & _); exact Hd.
+  - destruct Hl as (c & vs & -> & _ & _ & _ & _ & Hd & _); exact Hd.
 Qed.
 
 Lemma ref_default_none p x : ref_prop p x -> c_default (s_con p) = None.
@@ -289,20 +352,20 @@ Lemma level_with_leaves f fd fv self sub s scope t bb kv (other : schema -> Prop
   (forall fname k p ty bp, In (fname, (k, p)) (prop_names idf (s_props s)) -> In (k, p) (s_props s) -> other p -> fname <> [] ->
      gen (S f) MInline self false p (scope ++ fname) = Done (ty, bp) ->
      match lookup k kv with
-     | Some x => field_ok (dec (S (S fd))) zero (default_val env dv_fuel) kv (pair_of (make_field defs (s_con s) self fname k p ty bp)) = valid (S (S fv)) p x
+     | Some x => field_ok (dec (S (S (S fd)))) zero (default_val env dv_fuel) kv (pair_of (make_field defs (s_con s) self fname k p ty bp)) = valid (S (S fv)) p x
      | None => mem k (c_required (s_con s)) = false ->
-               field_ok (dec (S (S fd))) zero (default_val env dv_fuel) kv (pair_of (make_field defs (s_con s) self fname k p ty bp)) = true
+               field_ok (dec (S (S (S fd)))) zero (default_val env dv_fuel) kv (pair_of (make_field defs (s_con s) self fname k p ty bp)) = true
      end) ->
   gen (S (S (S f))) MDeclared self sub s scope = Done (t, bb) ->
-  is_ok (dec (S (S (S fd))) t (JObj kv)) = valid (S (S (S fv))) s (JObj kv).
+  is_ok (dec (S (S (S (S fd)))) t (JObj kv)) = valid (S (S (S fv))) s (JObj kv).
 Proof.
   intros Hsc Hp Hty Ha Haf Np Hreq Nn Hne Hprops Nk Hval Hother Hg.
-  apply (level_exact idf cf defs fmt_ok env sdefs (S f) (S (S fd)) (S (S fv)) self sub s scope t bb kv Hom Hsc Hp Hty Ha Haf); try assumption.
+  apply (level_exact idf cf defs fmt_ok env sdefs (S f) (S (S (S fd))) (S (S fv)) self sub s scope t bb kv Hom Hsc Hp Hty Ha Haf); try assumption.
   - intros k p Hin. destruct (Hprops k p Hin) as [Hl|[_ Hd]]; [exact (leaf_default_none p Hl)|exact Hd].
   - intros fname k p ty bp Hin Hgen.
     assert (Hinp : In (k, p) (s_props s)) by (unfold prop_names in Hin; apply in_combine_r in Hin; rewrite sort_props_In in Hin; exact Hin).
     pose proof (Hne _ _ Hin) as Hfn.
-    destruct (Hprops k p Hinp) as [[Hl|[Hl|[Hl|[Hl|Hl]]]]|[Hoth _]].
+    destruct (Hprops k p Hinp) as [[Hl|[Hl|[Hl|[Hl|[Hl|Hl]]]]]|[Hoth _]].
     + rewrite (gen_str_leaf idf cf defs f self _ p Hl) in Hgen. inversion Hgen; subst ty bp.
       destruct (lookup k kv) as [x|] eqn:El.
       * destruct (Hval k p x Hinp El) as [Hnn [Hstr _]]. apply str_field_present; [exact Hl|exact Hfn|exact El|split; [exact Hnn|exact (Hstr Hl)]].
@@ -312,19 +375,24 @@ Proof.
       * destruct (Hval k p x Hinp El) as [Hnn [_ [Hi _]]]. apply int_field_present; [exact Hl|exact Hfn|exact El|exact (Hi Hl)].
       * intros Hm. apply int_field_absent; assumption.
     + rewrite (gen_bool_leaf idf cf defs f self _ p Hl) in Hgen. inversion Hgen; subst ty bp.
-      pose proof (bool_field defs fmt_ok env sdefs fd (S fv) (s_con s) self fname k p (c_bounds (s_con p)) kv Hl Hfn) as Hb.
+      pose proof (bool_field defs fmt_ok env sdefs (S fd) (S fv) (s_con s) self fname k p (c_bounds (s_con p)) kv Hl Hfn) as Hb.
       destruct (lookup k kv) as [x|] eqn:El.
       * destruct (Hval k p x Hinp El) as [Hnn _]. exact (Hb Hnn).
       * exact Hb.
     + rewrite (gen_num_leaf f self _ p Hl) in Hgen. inversion Hgen; subst ty bp.
-      pose proof (num_field fd (S fv) (s_con s) self fname k p kv Hl Hfn) as Hb.
+      pose proof (num_field (S fd) (S fv) (s_con s) self fname k p kv Hl Hfn) as Hb.
       destruct (lookup k kv) as [x|] eqn:El.
       * destruct (Hval k p x Hinp El) as [Hnn _]. exact (Hb Hnn).
       * exact Hb.
     + destruct (gen_arr_leaf f self _ p ty bp Hl Hgen) as [-> ->].
-      pose proof (arr_field fd fv (s_con s) self fname k p kv Hl Hfn) as Hb.
+      pose proof (arr_field (S fd) fv (s_con s) self fname k p kv Hl Hfn) as Hb.
       destruct (lookup k kv) as [x|] eqn:El.
       * destruct (Hval k p x Hinp El) as [Hnn [_ [_ Har]]]. exact (Hb Hnn (Har Hl)).
+      * exact Hb.
+    + destruct (gen_enum_leaf f self _ p ty bp Hl Hgen) as (vs & Hev & -> & ->).
+      pose proof (enum_field fd (S fv) (s_con s) self fname k p vs kv (scope ++ fname) Hl Hev Hfn) as Hb.
+      destruct (lookup k kv) as [x|] eqn:El.
+      * destruct (Hval k p x Hinp El) as [Hnn _]. exact (Hb Hnn).
       * exact Hb.
     + exact (Hother fname k p ty bp Hin Hinp Hoth Hfn Hgen).
 Qed.
@@ -379,16 +447,18 @@ Proof. destruct n; cbn [sobj]; intros (Pp & Pty & Pa & _); (split; [exact Pp|spl
 
 Lemma leaf_not_object p : leaf p -> c_types (s_con p) = [SObject] -> False.
 Proof.
-  intros [Hl|[Hl|[Hl|[Hl|Hl]]]] Pty;
-    [destruct Hl as (c0 & -> & Ht & _)|destruct Hl as (c0 & m0 & -> & Ht & _)|destruct Hl as (c0 & -> & Ht & _)|destruct Hl as (c0 & -> & Ht & _)|destruct Hl as (c0 & it0 & -> & Ht & _)];
+  intros [Hl|[Hl|[Hl|[Hl|[Hl|Hl]]]]] Pty;
+    [destruct Hl as (c0 & -> & Ht & _)|destruct Hl as (c0 & m0 & -> & Ht & _)|destruct Hl as (c0 & -> & Ht & _)|destruct Hl as (c0 & -> & Ht & _)|destruct Hl as (c0 & it0 & -> & Ht & _)
+    |destruct Hl as (c0 & vs0 & -> & Ht & _)];
     cbn [s_con] in Pty; rewrite Ht in Pty; discriminate.
 Qed.
 
 Lemma leaf_not_ref p x : leaf p -> ref_prop p x -> False.
 Proof.
   intros Hl (c & E & Hr & _). subst p.
-  destruct Hl as [Hl|[Hl|[Hl|[Hl|Hl]]]];
-    [destruct Hl as (c0 & E & _ & Hr0 & _)|destruct Hl as (c0 & m0 & E & _ & Hr0 & _)|destruct Hl as (c0 & E & _ & Hr0 & _)|destruct Hl as (c0 & E & _ & Hr0 & _)|destruct Hl as (c0 & it0 & E & _ & Hr0 & _)];
+  destruct Hl as [Hl|[Hl|[Hl|[Hl|[Hl|Hl]]]]];
+    [destruct Hl as (c0 & E & _ & Hr0 & _)|destruct Hl as (c0 & m0 & E & _ & Hr0 & _)|destruct Hl as (c0 & E & _ & Hr0 & _)|destruct Hl as (c0 & E & _ & Hr0 & _)|destruct Hl as (c0 & it0 & E & _ & Hr0 & _)
+    |destruct Hl as (c0 & vs0 & E & _ & Hr0 & _)];
     inversion E; subst; congruence.
 Qed.
 
@@ -415,12 +485,12 @@ Proof.
     cbn [sobj] in Hs. destruct Hs as (Hp & Hty & Ha & Haf & Np & Hreq & Nn & Hne & Hprops).
     cbn [dok] in Hk. destruct Hk as (Nk & Hval).
     cbn [fuelG fuelD fuelV] in *.
-    destruct (fuelV_SS m c) as [fv' Hfv]. rewrite Hfv.
-    apply (level_with_leaves (fuelG m a) (fuelD m b) (S fv') self sub s scope t bb kv (nested_or_ref m)); try assumption.
+    destruct (fuelV_SS m c) as [fv' Hfv]. rewrite Hfv. destruct (fuelD_pos m b) as [fdx Hfd]. rewrite Hfd.
+    apply (level_with_leaves (fuelG m a) fdx (S fv') self sub s scope t bb kv (nested_or_ref m)); try assumption.
     + intros k p Hin. destruct (Hprops k p Hin) as [Hl|[[Hn Hd]|Hr]]; [left; exact Hl|right; split; [left; exact Hn|exact Hd]|].
       right. split; [right; exact Hr|]. destruct Hr as (x & d & u & a0 & b0 & Hrp & _). exact (ref_default_none p x Hrp).
     + intros k p x Hin Hl. destruct (Hval k p x Hin Hl) as (H1 & H2 & H3 & H4 & _). split; [exact H1|split; [exact H2|split; [exact H3|exact H4]]].
-    + intros fname k p ty bp Hin Hinp Hother Hfn Hgen. rewrite <- Hfv.
+    + intros fname k p ty bp Hin Hinp Hother Hfn Hgen. rewrite <- Hfv, <- Hfd.
       destruct Hother as [Hnest|(x & d & u & a0 & b0 & Hrp & Hld & Hls & Hsd & Hidf & Hlu & Hgd)].
       * (* an object written inline: one level down *)
         pose proof (sobj_facts m p Hnest) as (Pp & Pty & Pa). pose proof Pp as (Pe & Pr & _ & _ & Pall & Pany).
@@ -561,7 +631,7 @@ Proof.
   - vm_compute. repeat constructor; cbn; intuition discriminate.
   - intros fname kp H. vm_compute in H. destruct H as [H|[H|[]]]; inversion H; subst; discriminate.
   - intros k p [H|[H|[]]]; inversion H; subst; left.
-    + right. right. right. right. exists (mkC [SArray] None None [] 1 2 0 0 None None (mkBounds None None None None) None None), ex_str_item.
+    + right. right. right. right. left. exists (mkC [SArray] None None [] 1 2 0 0 None None (mkBounds None None None None) None None), ex_str_item.
       repeat split; try reflexivity. eexists. repeat split; reflexivity.
     + right. right. right. left. eexists. repeat split; reflexivity.
 Qed.
@@ -681,4 +751,41 @@ Proof.
       (split; [discriminate|]); (split; [intros s0 E; inversion E; reflexivity|]); intros kv' E; inversion E; subst;
       (split; [repeat constructor; cbn; intuition discriminate|]); intros k' x' Hl'; vm_compute in Hl';
       repeat (match type of Hl' with (if ?c then _ else _) = _ => destruct c end); inversion Hl'; subst; (split; [discriminate|]); intros s0 E'; inversion E'; reflexivity.
+Qed.
+
+(* ---------- non-vacuity of the enum leaf: {c: string enum [r, g] (required)} ---------- *)
+Definition ex_color : schema := Sch (mkC [SString] None (Some [JStr [114]%N; JStr [103]%N]) [] 0 0 0 0 None None (mkBounds None None None None) None None) [] None false None [] [].
+Definition ex_enum_obj : schema :=
+  Sch (mkC [SObject] None None [[99]%N] 0 0 0 0 None None (mkBounds None None None None) None None) [([99]%N, ex_color)] None false None [] [].
+Definition ex_enum_docs : list (list (str * json)) := [[([99]%N, JStr [114]%N)]; [([99]%N, JStr [120]%N)]; [([99]%N, JInt 1)]; []].
+
+Lemma ex_enum_sobj : sobj (fun s => s) (mkCfg false false) [] [] [] 0 ex_enum_obj.
+Proof.
+  cbn [sobj]. repeat split; try reflexivity; try discriminate.
+  - repeat constructor. intros [].
+  - intros k [H|[]]. subst. left; reflexivity.
+  - vm_compute. repeat constructor. intros [].
+  - intros fname kp H. vm_compute in H. destruct H as [H|[]]; inversion H; subst; discriminate.
+  - intros k p [H|[]]; inversion H; subst. left. right. right. right. right. right.
+    exists (mkC [SString] None (Some [JStr [114]%N; JStr [103]%N]) [] 0 0 0 0 None None (mkBounds None None None None) None None), [[114]%N; [103]%N].
+    repeat split; try reflexivity; discriminate.
+Qed.
+
+Example enum_inhabited :
+  exists t b, Gen.gen (fun s => s) (mkCfg false false) [] (fuelG 0 2) MDeclared None false ex_enum_obj [82]%N = Done (t, b) /\
+    (forall kv, In kv ex_enum_docs ->
+       is_ok (Exec.dec (fun _ _ => true) [] (fuelD 0 0) t (JObj kv)) = Valid.valid (fun _ _ => true) [] (fuelV 0 0) ex_enum_obj (JObj kv)) /\
+    map (fun kv => Valid.valid (fun _ _ => true) [] (fuelV 0 0) ex_enum_obj (JObj kv)) ex_enum_docs = [true; false; false; false].
+Proof.
+  eexists. eexists. split; [vm_compute; reflexivity|].
+  assert (Hgen : Gen.gen (fun s => s) (mkCfg false false) [] (fuelG 0 2) MDeclared None false ex_enum_obj [82]%N = Done _) by (vm_compute; reflexivity).
+  split; [|vm_compute; reflexivity].
+  intros kv Hkv.
+  eapply (nested_object_exact (fun s => s) (mkCfg false false) [] (fun _ _ => true) [] [] eq_refl eq_refl 0 2 0 0 None false ex_enum_obj [82]%N _ _ kv); [discriminate|exact ex_enum_sobj| |exact Hgen].
+  cbn [dok]. split; [destruct Hkv as [<-|[<-|[<-|[<-|[]]]]]; repeat constructor; cbn; intuition discriminate|].
+  intros k p x Hin Hl. destruct Hin as [Hin|[]]. inversion Hin; subst k p.
+  split; [destruct Hkv as [<-|[<-|[<-|[<-|[]]]]]; vm_compute in Hl; inversion Hl; discriminate|].
+  split; [intros (c & E & _ & _ & He & _); inversion E; subst c; discriminate|].
+  split; [intros (c & m & E & Ht & _); inversion E; subst c; discriminate|].
+  split; [intros (c & it & E & _); inversion E|exact I].
 Qed.
